@@ -19,7 +19,7 @@ type env struct {
 	ms *memstore.Store
 }
 
-func openEnv() *env {
+func openMemEnv() *env {
 	ms := memstore.New()
 	db, _ := OpenWithStore(ms)
 	return &env{db: db, ms: ms}
